@@ -232,7 +232,7 @@ impl<'a> TirGen<'a> {
             1 => Expression::Map((0..self.t.index(3)).map(|_| (self.expr(d), self.expr(d))).collect()),
             2 => Expression::Tuple(Box::new((self.expr(d), self.expr(d)))),
             3 => Expression::Struct(StructExpr {
-                constructor: *self.t.pick(&[0usize, 1, 6, 7, 127, 128, 1000]),
+                constructor: *self.t.pick(&[0usize, 1, 6, 7, 127, 128, 1000, 1 << 32, (1 << 32) + 5, usize::MAX]),
                 fields: (0..self.t.index(4)).map(|_| self.expr(d)).collect(),
             }),
             4 => Expression::Assets((0..self.t.index(3)).map(|_| self.asset(d)).collect()),
